@@ -8,6 +8,7 @@ import (
 	"net/netip"
 	"time"
 
+	"github.com/pion/stun/v3"
 	"github.com/pion/transport/v4"
 )
 
@@ -17,6 +18,7 @@ func init() {
 	verifRegister("verifC18PortRange", verifC18PortRange)
 	verifRegister("verifC18GatherHost", verifC18GatherHost)
 	verifRegister("verifC18Cycle", verifC18Cycle)
+	verifRegister("verifC18SrflxBase", verifC18SrflxBase)
 }
 
 // (a) the address-class predicates for all 2^128 IPv6 addresses.
@@ -406,5 +408,71 @@ func verifC18Cycle() {
 	verifAssert(a.Restart("freshufrag", "freshpasswordfreshpasswd") == nil, "restart-ok")
 	verifAssert(cancelled == 1 && a.gatheringState == GatheringStateNew, "restart-cancels-the-cycle-and-returns-to-New")
 	_ = time.Second
+	verifReach("done")
+}
+
+// (d') the base of server-reflexive candidates: when the agent opens the STUN
+// socket itself it binds it on an address the interface/IP filters accept —
+// with the interface filter alone, the IP filter alone or both — and only
+// without any filter on the wildcard address.
+type verifC18SrflxNet struct {
+	verifSrflxNet
+	asked []*net.UDPAddr
+}
+
+func (n *verifC18SrflxNet) ListenUDP(network string, a *net.UDPAddr) (transport.UDPConn, error) {
+	n.asked = append(n.asked, a)
+	c, err := n.verifSrflxNet.ListenUDP(network, a)
+	if sc, ok := c.(*verifSTUNConn); ok && a != nil && a.IP != nil {
+		sc.local = &net.UDPAddr{IP: a.IP, Port: sc.port}
+	}
+	return c, err
+}
+
+func verifC18SrflxBase() {
+	w := verifNewWorld(true, false, 0, 0)
+	a := w.a
+	a.loop = verifLoop()
+	n := &verifC18SrflxNet{}
+	for i, ip := range []string{"10.0.0.1", "10.0.0.2"} {
+		ifc := transport.NewInterface(net.Interface{Index: i + 1, Name: verifIfaceNames[i], Flags: net.FlagUp})
+		ifc.AddAddress(&net.IPNet{IP: net.ParseIP(ip).To4(), Mask: net.CIDRMask(24, 32)})
+		n.ifaces = append(n.ifaces, ifc)
+	}
+	a.net = n
+	a.stunGatherTimeout = time.Second
+	useIfFilter, useIPFilter := verifChoice(2) == 1, verifChoice(2) == 1
+	if useIfFilter {
+		a.interfaceFilter = func(name string) bool { return name == verifIfaceNames[0] }
+	}
+	if useIPFilter {
+		a.ipFilter = func(ip net.IP) bool { return !ip.Equal(net.ParseIP("10.0.0.2")) }
+	}
+	url, err := stun.ParseURI("stun:stun.example.org:3478")
+	verifAssert(err == nil, "uri")
+	a.gatherCandidatesSrflx(context.Background(), []*stun.URI{url}, []NetworkType{NetworkTypeUDP4})
+	verifRunGoroutines()
+	verifAssert(len(n.asked) >= 1, "a-socket-is-opened")
+	filtered := useIfFilter || useIPFilter
+	for _, ask := range n.asked {
+		if filtered {
+			verifReach("filtered")
+			verifAssert(ask.IP != nil && !ask.IP.IsUnspecified(), "with-a-filter-the-STUN-socket-is-not-bound-to-the-wildcard-address")
+			verifAssert(ask.IP.Equal(net.ParseIP("10.0.0.1")), "the-STUN-socket-is-bound-on-an-address-the-filters-accept")
+		} else {
+			verifReach("unfiltered")
+		}
+	}
+	for _, cs := range a.localCandidates {
+		for _, c := range cs {
+			verifReach("published")
+			verifAssert(c.Type() == CandidateTypeServerReflexive, "only-srflx-candidates-come-out-of-this-gatherer")
+			if filtered {
+				ra := c.RelatedAddress()
+				verifAssert(ra != nil && ra.Address == "10.0.0.1", "the-base-of-the-published-candidate-is-an-accepted-address")
+			}
+		}
+	}
+	a.deleteAllCandidates()
 	verifReach("done")
 }
